@@ -98,3 +98,24 @@ Proof.
   split; [vm_compute; reflexivity|]. split; [vm_compute; reflexivity|].
   apply (subgraph_bool has_mono has_mono_contract true true (CWild 9) CAny namesEC (Some 4%N) gSO gCO wf_gSO wf_gCO). vm_compute. reflexivity.
 Qed.
+
+(** a NEW object instead of an in-place edit: same history as ex_edit_stale, but object 2 is REPLACED by a new object holding C-O
+    (e.g. a copy of object 1): the filtering engine answers True — nothing cached for the old object 2 rides along *)
+Definition histNew : list hstep := [HQ (QIso 0 0 2); HNew 2 1; HQ (QIso 0 0 2)].
+Example ex_new_object : map verdict_of (fst (run_hist has_mono (monos_g true) gsA gsA [eFull] histNew [])) = [tbool false; tbool true].
+Proof.
+  rewrite (new_objects_harmless has_mono (monos_g true) gsA [eFull] histNew); [vm_compute; reflexivity | | apply cache_inv_nil].
+  intros i k [E|[E|[E|[]]]]; discriminate.
+Qed.
+
+(** the general rule: the derived object (new object 2, value C-O) is edited in place BEFORE any filtering engine sees it: harmless;
+    the stale history of ex_edit_stale does not satisfy the premise *)
+Definition histSafe : list hstep := [HQ (QIso 0 0 2); HNew 2 2; HEdit 2 1; HQ (QIso 0 0 2)].
+Example ex_safe_edits : map verdict_of (fst (run_hist has_mono (monos_g true) gsA gsA [eFull] histSafe [])) = [tbool false; tbool true]
+                        /\ ~ edits_uncached has_mono (monos_g true) gsA gsA [eFull] histEd [].
+Proof.
+  split.
+  - rewrite (safe_edits_harmless has_mono (monos_g true) gsA [eFull] histSafe gsA [] (cache_inv_nil gsA)); [vm_compute; reflexivity|].
+    simpl. split; [intros na; vm_compute; reflexivity | exact Logic.I].
+  - simpl. intros (Hn & _). specialize (Hn [1; 2]%N). vm_compute in Hn. discriminate.
+Qed.
